@@ -135,6 +135,9 @@ def vfeOp (arch name : String) (args : List String) : M Resp := do
   | "blend", 9 => do
     let v ← lanes4 (args.take 8)
     let ctl ← natArg (args.getD 8 "")
+    -- the ifma `Lanes` enum has no CD, BC, ABCD; BCD exists only there: the Rust driver skips
+    if (arch == "ifma" && (ctl == 4 || ctl == 6 || ctl == 7)) || (arch == "avx2" && ctl == 8) then
+      return Resp.skip
     match blendMask ctl with
     | some mask =>
       ok ((List.range 4).map fun i =>
@@ -340,24 +343,39 @@ def msmPreOp (ris allowAbsent : Bool) (ss sp ds dp : String) : M Resp := do
 
 /-! ## Edwards -/
 
+/-- Decode a point from already syntax-checked bytes. -/
+def decodePt (ris : Bool) (b : List UInt8) : M EPt :=
+  match (if ris then risDecode b else EPt.decompress b) with
+  | some p => pure p
+  | none => throw Resp.badpoint
+
+def rawNat (b : List UInt8) : M Nat := if signBit b then badreq else pure (leToNat b)
+
 def doubleBase (ris raw : Bool) (a A b : String) : M Resp := do
-  let P ← if ris then risArg A else ptArg A
-  let a ← if raw then rawScArg a else scArg a
-  let b ← if raw then rawScArg b else scArg b
+  -- hex/length errors first, then point decoding, then the raw-scalar range check
+  let a ← bytesN 32 a
+  let Ab ← bytesN 32 A
+  let b ← bytesN 32 b
+  let P ← decodePt ris Ab
+  let a ← if raw then rawNat a else pure (leToNat a % L)
+  let b ← if raw then rawNat b else pure (leToNat b % L)
   ok [outPt ris (EPt.add (EPt.smul a P) (mulBaseFast b))]
 
 def selectOp (P x : String) : M Resp := do
-  let P ← ptArg P
+  let Pb ← bytesN 32 P
   let x ← intArg x
+  let P ← decodePt false Pb
   if x < -8 || x > 8 then badreq
   let q := EPt.smul x.natAbs P
   ok [ptOut (if x < 0 then EPt.neg q else q)]
 
 def tableOp (raw : Bool) (radix P s : String) : M Resp := do
   let radix ← natArg radix
+  let Pb ← bytesN 32 P
+  let sb ← bytesN 32 s
+  let Pp ← decodePt false Pb
   if !(radix == 16 || radix == 32 || radix == 64 || radix == 128 || radix == 256) then badreq
-  let Pp ← ptArg P
-  let s ← if raw then rawScArg s else scArg s
+  let s ← if raw then rawNat sb else pure (leToNat sb % L)
   ok [ptOut (EPt.smul s Pp), ptOut Pp]
 
 def nonspecMap (msg : List UInt8) : Option EPt :=
@@ -380,11 +398,14 @@ def edwardsOp (op : String) (args : List String) : M Resp := do
   | "ed.basepoint_table", [s] => ok [ptOut (mulBaseFast (← scArg s))]
   | "ed.mul_base_clamped", [b] => ok [ptOut (mulBaseFast (clampedNat (← bytesN 32 b)))]
   | "ed.mul_clamped", [P, b] => do
-    let P ← ptArg P
-    ok [ptOut (EPt.smul (clampedNat (← bytesN 32 b)) P)]
+    let Pb ← bytesN 32 P
+    let b ← bytesN 32 b
+    ok [ptOut (EPt.smul (clampedNat b) (← decodePt false Pb))]
   | "ed.mul_raw", [P, s] => do
-    let P ← ptArg P
-    ok [ptOut (EPt.smul (← rawScArg s) P)]
+    let Pb ← bytesN 32 P
+    let sb ← bytesN 32 s
+    let P ← decodePt false Pb
+    ok [ptOut (EPt.smul (← rawNat sb) P)]
   | "ed.to_montgomery", [P] => ok [feOut (toMontgomery (← ptArg P).toAffine)]
   | "ed.table", [r, P, s] => tableOp false r P s
   | "ed.table_raw", [r, P, s] => tableOp true r P s
@@ -404,6 +425,14 @@ def edwardsOp (op : String) (args : List String) : M Resp := do
   | "ed.from_slice", [b] => do
     let b ← hexArg b
     if b.length == 32 then ok [hexEncode b] else pure Resp.err
+  | "ed.compress", [P] => ok [ptOut (← ptArg P)]
+  | "ed.from_coords", [X, Y, Z, T] => do
+    -- Rust-only helper: `compress()` and `is_valid()` of the point with these raw coordinates
+    let p : EPt := ⟨← feArg X, ← feArg Y, ← feArg Z, ← feArg T⟩
+    let xx := fsq p.X; let yy := fsq p.Y; let zz := fsq p.Z
+    let onCurve := fmul (fsub yy xx) zz == fadd (fsq zz) (fmul D (fmul xx yy))
+    let onSegre := fmul p.X p.Y == fmul p.Z p.T
+    ok [ptOut p, fmtBool (onCurve && onSegre)]
   | _, _ => badreq
 
 /-- `ed.direct.<copy>.<alg>`: answered exactly as the corresponding non-direct op. -/
@@ -417,6 +446,13 @@ def directOp (copy alg : String) (args : List String) : M Resp := do
   | "straus_vt", [s, p] => msmOp false true false s p
   | "pippenger", [s, p] => msmOp false true false s p
   | "pre", [a, b, c, d] => msmPreOp false true a b c d
+  | "double", [P] => ok [ptOut (EPt.double (← ptArg P))]
+  | "add", [P, Q] => do
+    let Pb ← bytesN 32 P; let Qb ← bytesN 32 Q
+    ok [ptOut (EPt.add (← decodePt false Pb) (← decodePt false Qb))]
+  | "sub", [P, Q] => do
+    let Pb ← bytesN 32 P; let Qb ← bytesN 32 Q
+    ok [ptOut (EPt.sub (← decodePt false Pb) (← decodePt false Qb))]
   | _, _ => badreq
 
 /-! ## Montgomery / X25519 -/
@@ -489,6 +525,7 @@ def ristrettoOp (op : String) (args : List String) : M Resp := do
   | "ris.from_slice", [b] => do
     let b ← hexArg b
     if b.length == 32 then ok [hexEncode b] else pure Resp.err
+  | "ris.compress", [P] => ok [risOut (← risArg P)]
   | "ris.from_hash", [m] => ok [risOut (risFromUniform (sha512 (← hexArg m)))]
   | _, _ => badreq
 
@@ -638,7 +675,7 @@ def isRawFamily (fam : String) : Bool :=
 def handleOp (legacy : Bool) (op : String) (args : List String) : M Resp := do
   match op.splitOn "." with
   | ["selftest"] => do
-    let (n, failed) := SelfTest.run
+    let (n, failed) := SelfTest.run ()
     if failed.isEmpty then ok [toString n] else pure (Resp.errMsg (",".intercalate failed))
   | "fe" :: _ => fieldOp op args
   | ["vfe", arch, name] => vfeOp arch name args
